@@ -77,6 +77,22 @@ def prepare(ctx):
             stubs['CompactGen.v'] = ('From ErgoBridge Require Import ReadyIR CompactIR.\nFrom Coq Require Import String.\nLocal Open Scope string_scope.\n'
                                      'Definition gen_compact : compact_ir := CompactIR "" "" "" CBNil "" "" "" CBNil nil.\n'
                                      'Definition gen_compact_helpers : list (string * string) := nil.\n')
+            stubs['ReadGen.v'] = ('From ErgoBridge Require Import ReadIR.\nFrom Coq Require Import String List.\nImport ListNotations.\nLocal Open Scope string_scope.\n'
+                                  'Definition gen_readEvents : fn_ir := FnIR [] (lblk [LSUnknown "stub"]) [].\n'
+                                  'Definition gen_getEventsPath : fn_ir := FnIR [] (lblk [LSUnknown "stub"]) [].\n'
+                                  'Definition gen_encodeEventLine : fn_ir := FnIR [] (lblk [LSUnknown "stub"]) [].\n'
+                                  'Definition gen_hasUnterminatedTail : fn_ir := FnIR [] (lblk [LSUnknown "stub"]) [].\n'
+                                  'Definition gen_formatEventsParseError : fmt_ir := FmtIR [] false "stub" [] ("", []) ("", []).\n'
+                                  'Definition gen_loadGraph : load_ir := LoadIR "" "" "" false.\n')
+            stubs['CycleGen.v'] = 'From ErgoBridge Require Import ReadyIR.\nDefinition gen_cycle_prog : prog := nil.\n'
+            stubs['PruneGen.v'] = ('From ErgoBridge Require Import ReadyIR CompactIR PruneIR.\nFrom Coq Require Import String.\nLocal Open Scope string_scope.\n'
+                                   'Definition gen_prune_prog : prog := nil.\n'
+                                   'Definition gen_tombstone_events : tomb_ir := TombIR "" "" "" "" CBNil.\n'
+                                   'Definition gen_prune_wiring : list (string * string) := nil.\n')
+            stubs['OutGen.v'] = ('From ErgoBridge Require Import OutLib.\nFrom Coq Require Import String List.\nImport ListNotations.\nLocal Open Scope string_scope.\n'
+                                 'Definition gen_out : list (string * list (list otok)) := [("(translator failed)", [[OUnknownWriter "stub"]])].\n'
+                                 'Definition gen_out_sig : list (string * (bool * bool)) := [].\n'
+                                 'Definition gen_out_cmd : list (string * list (list otok)) := [("(translator failed)", [[OUnknownWriter "stub"]])].\n')
             for name, text in stubs.items():
                 with open(os.path.join(COQ, 'gen', name), 'w') as f:
                     f.write('(* STUB: tools/gen failed: %s *)\n' % ctx.gen_error.replace('*)', '* )')[:200] + text)
@@ -132,8 +148,9 @@ def compile_props(ctx):
 
 # replay / readiness / compaction are regenerated from graph.go; the properties that stand on them re-check the
 # equivalence theorems between the regenerated definitions and the hand-written model
-EXTRA_BRIDGE = {'C01': ['B_Ready'], 'C05': ['B_Replay', 'B_Compact'], 'C06': ['B_Replay'], 'C08': ['B_Replay', 'B_Ready'],
-                'C09': ['B_Replay'], 'C14': ['B_Replay'], 'C15': ['B_Replay', 'B_Ready'], 'C19': ['B_Ready'], 'C20': ['B_Replay', 'B_Compact']}
+EXTRA_BRIDGE = {'C01': ['B_Ready'], 'C03': ['B_Read'], 'C05': ['B_Replay', 'B_Compact'], 'C06': ['B_Replay'], 'C07': ['B_Cycle'], 'C08': ['B_Replay', 'B_Ready'],
+                'C09': ['B_Replay', 'B_Prune'], 'C12': ['B_Read'], 'C13': ['B_Read'], 'C14': ['B_Replay'], 'C15': ['B_Replay', 'B_Ready', 'B_Cycle'], 'C18': ['B_Read'],
+                'C19': ['B_Ready'], 'C20': ['B_Replay', 'B_Compact']}
 
 
 def compile_bridge(ctx, bname):
@@ -144,6 +161,22 @@ def compile_bridge(ctx, bname):
     if ctx.gen_error:
         for n in bnames:
             ctx.obligations.append((n, False, 'translator: ' + ctx.gen_error))
+        return
+    # Same inputs, same verdict: a successful compile is remembered under the hash of EVERY .v source it can depend on
+    # (theories, the files regenerated from /repo on this run, the bridge) and the coqc version; a failure never is.
+    h = hashlib.sha256(subprocess.run(['coqc', '--version'], capture_output=True).stdout)
+    for f in sorted(glob.glob(os.path.join(COQ, 'theories', '*.v')) + glob.glob(os.path.join(COQ, 'gen', '*.v')) + glob.glob(os.path.join(COQ, 'bridge', '*.v'))):
+        h.update(f.encode() + b'\0' + open(f, 'rb').read() + b'\0')
+    key = bname + ':' + h.hexdigest()
+    cache_file = os.path.join(BUILD, 'bridge_cache.json')
+    try:
+        cache = json.load(open(cache_file))
+    except Exception:
+        cache = {}
+    if cache.get(key) == 'ok' and ctx.tier == 'quick':
+        for n in bnames:
+            ctx.obligations.append((n, True, ''))
+        ctx.cov.setdefault('bridge_reused', []).append(bname)
         return
     outdir = os.environ.get('VERIF_SCRATCH') or COQ
     rc, out = sh(['coqc', '-Q', 'theories', 'Ergo', '-Q', 'gen', 'ErgoGen', '-Q', 'bridge', 'ErgoBridge', '-w', '-all',
@@ -165,6 +198,16 @@ def compile_bridge(ctx, bname):
     else:
         if out.count('Closed under the global context') != len(re.findall(r'^Print Assumptions', open(b).read(), re.M)):
             ctx.obligations.append((bname + ': Print Assumptions', False, 'not closed: ' + out[-300:]))
+        else:
+            try:
+                cache = json.load(open(cache_file))
+            except Exception:
+                cache = {}
+            cache = {k: v for k, v in cache.items() if not k.startswith(bname + ':')}
+            cache[key] = 'ok'
+            tmp = cache_file + '.%d' % os.getpid()
+            json.dump(cache, open(tmp, 'w'))
+            os.replace(tmp, cache_file)
         for n in bnames:
             ctx.obligations.append((n, True, ''))
 
@@ -185,6 +228,26 @@ def run_coqchk(ctx):
         ctx.obligations.append(('coqchk', False, out[-300:]))
     else:
         ctx.obligations.append(('coqchk', True, ''))
+    # the bridge obligations (theorems about the regenerated definitions) get the same independent re-check
+    if ctx.gen_error:
+        return
+    for bname in ['B_%s' % ctx.prop] + EXTRA_BRIDGE.get(ctx.prop, []):
+        if not os.path.exists(os.path.join(COQ, 'bridge', bname + '.v')):
+            continue
+        t = time.time()
+        rc, out = sh(['coqc', '-Q', 'theories', 'Ergo', '-Q', 'gen', 'ErgoGen', '-Q', 'bridge', 'ErgoBridge', '-w', '-all',
+                      os.path.join('bridge', bname + '.v')], cwd=COQ, timeout=900)
+        if rc != 0:
+            continue        # already reported by compile_bridge
+        try:
+            rc, out = sh(['coqchk', '-silent', '-o', '-Q', 'theories', 'Ergo', '-Q', 'gen', 'ErgoGen', '-Q', 'bridge', 'ErgoBridge',
+                          'ErgoBridge.' + bname], cwd=COQ, timeout=3000)
+        except subprocess.TimeoutExpired:
+            ctx.cov['coqchk_' + bname] = {'status': 'timeout (not counted as a failure)'}
+            continue
+        m = re.search(r'\* Axioms:(.*?)\n\s*\n\* ', out, re.S)
+        ctx.cov['coqchk_' + bname] = {'rc': rc, 'wall_s': round(time.time() - t), 'axioms': ' '.join(m.group(1).split()) if m else 'unparsed'}
+        ctx.obligations.append(('coqchk ' + bname, rc == 0, '' if rc == 0 else out[-300:]))
 
 
 def skeleton_diagnosis():
